@@ -342,6 +342,17 @@ func runGroupQ(t *testing.T, out *vfh.Out, unicastOnly, sys bool, tf, lat time.D
 			}
 		}
 		c0.mu.Unlock()
+		// solicitations of the previous incarnation answered by the re-established one: nothing was
+		// delivered to the later connections, so every unicast RA written on them answers a request
+		// that was due (if at all) before the interface was re-initialised (C07)
+		stale := 0
+		for _, cn := range conns[1:] {
+			for _, w := range cn.snapshot() {
+				if w.dst != vfAllNodes {
+					stale++
+				}
+			}
+		}
 		cancel()
 		final := "nil"
 		if outcome == "running" || outcome == "redial" {
@@ -361,7 +372,7 @@ func runGroupQ(t *testing.T, out *vfh.Out, unicastOnly, sys bool, tf, lat time.D
 			t.Logf("hostA=%v hostB=%v outcome=%s", hostA, hostB, outcome)
 		}
 		c := new(vfh.Toks).S("grpq").B(unicastOnly).B(sys).I(int64(tf)).I(int64(lat)).N(n)
-		impl := new(vfh.Toks).S(outcome).I(int64(at - faultAt)).N(oldUse).S(final).N(delivered)
+		impl := new(vfh.Toks).S(outcome).I(int64(at - faultAt)).N(oldUse).S(final).N(delivered).N(stale)
 		out.Line(c.String(), impl.String())
 		out.Flush()
 	})
